@@ -381,6 +381,77 @@ fn index_s<'a>(ix: &gimli::NameIndex<Sl<'a>>, dstr: &gimli::DebugStr<Sl<'a>>, ha
     )
 }
 
+fn djb_ascii(s: &[u8]) -> u32 {
+    let mut h: u32 = 5381;
+    for b in s {
+        h = h.wrapping_mul(33).wrapping_add(b.to_ascii_lowercase() as u32);
+    }
+    h
+}
+
+/// producer-made tables (names hashed with the case-folding DJB hash): every name enumerated
+/// linearly must be found through its hash and through its bucket, and whatever a hash lookup
+/// returns must carry that hash
+fn djb_selfcheck<'a>(sec: &gimli::DebugNames<Sl<'a>>, dstr: &gimli::DebugStr<Sl<'a>>) -> Option<String> {
+    let mut it = sec.headers();
+    while let Ok(Some(hd)) = it.next() {
+        let Ok(ix) = hd.index() else { return Some("real-names index".into()) };
+        if !ix.has_hash_table() {
+            continue;
+        }
+        let n = ix.name_count();
+        let strs: Vec<Option<Vec<u8>>> = (0..n).map(|i| ix.name_string(gimli::NameTableIndex(i), dstr).ok().map(|r| r.slice().to_vec())).collect();
+        for (i, s) in strs.iter().enumerate() {
+            let Some(s) = s else { return Some(format!("real-names string {i}")) };
+            if !s.is_ascii() {
+                continue;
+            }
+            let h = djb_ascii(s);
+            let Ok(mut hi) = ix.find_by_hash(h) else { return Some("real-names find_by_hash".into()) };
+            let mut found = false;
+            for _ in 0..n + 2 {
+                match hi.next() {
+                    Ok(Some(j)) => {
+                        if j.0 as usize == i {
+                            found = true;
+                        }
+                        match &strs[j.0 as usize] {
+                            Some(sj) if !sj.is_ascii() || djb_ascii(sj) == h => {}
+                            _ => return Some(format!("real-names hash-lookup-returned-other-hash name={i} got={}", j.0)),
+                        }
+                    }
+                    Ok(None) => break,
+                    Err(_) => return Some("real-names hash iter error".into()),
+                }
+            }
+            if !found {
+                return Some(format!("real-names name-not-found-by-hash name={i} hash={h}"));
+            }
+            let b = h % ix.bucket_count();
+            let mut in_bucket = false;
+            if let Ok(Some(mut bi)) = ix.find_by_bucket(b) {
+                for _ in 0..n + 2 {
+                    match bi.next() {
+                        Ok(Some((j, hj))) => {
+                            if hj % ix.bucket_count() != b {
+                                return Some("real-names bucket-yields-foreign-hash".into());
+                            }
+                            if j.0 as usize == i && hj == h {
+                                in_bucket = true;
+                            }
+                        }
+                        _ => break,
+                    }
+                }
+            }
+            if !in_bucket {
+                return Some(format!("real-names name-not-in-bucket name={i}"));
+            }
+        }
+    }
+    None
+}
+
 fn h_names(op: &str, a: &[&str]) -> Option<String> {
     match (op, a) {
         ("nm" | "nm-oob", [e, h, st, hashes, exp]) => {
@@ -420,7 +491,13 @@ fn h_names(op: &str, a: &[&str]) -> Option<String> {
                 }
             }
             let s = join("#", &out);
-            let bad = if *exp != "-" && *exp != s { Some(format!("names-differ scan={exp}")) } else { None };
+            let bad = if *exp == "djb" {
+                djb_selfcheck(&sec, &dstr)
+            } else if *exp != "-" && *exp != s {
+                Some(format!("names-differ scan={exp}"))
+            } else {
+                None
+            };
             Some(with_oracle(format!("ok {s}"), bad))
         }
         ("djb-ascii", [h]) => {
@@ -686,6 +763,24 @@ fn loc_slice(d: &gimli::Dwarf<Sl<'_>>, want: gimli::SectionId, pkg: &[u8], e: Ru
     }
 }
 
+/// `row:s0,…,s9|extras` against an expectation in which `*` stands for "anything"
+fn dwp_item_match(exp: &str, got: &str) -> bool {
+    if exp == "*" || exp == got {
+        return true;
+    }
+    let (Some((er, erest)), Some((gr, grest))) = (exp.split_once(':'), got.split_once(':')) else { return false };
+    if er != "*" && er != gr {
+        return false;
+    }
+    let (Some((es_, ex)), Some((gs, gx))) = (erest.split_once('|'), grest.split_once('|')) else { return false };
+    if ex != "*" && ex != gx {
+        return false;
+    }
+    let e: Vec<&str> = es_.split(',').collect();
+    let g: Vec<&str> = gs.split(',').collect();
+    e.len() == g.len() && e.iter().zip(g.iter()).all(|(a, b)| *a == "*" || a == b)
+}
+
 fn h_loader(op: &str, a: &[&str]) -> Option<String> {
     match (op, a) {
         ("load-wiring", []) => Some(wiring()),
@@ -744,11 +839,15 @@ fn h_loader(op: &str, a: &[&str]) -> Option<String> {
                 });
             }
             let s = join(";", &out);
-            let bad = if *exp != "-" && *exp != s {
+            let matches = {
+                let ex: Vec<&str> = exp.split(';').collect();
+                ex.len() == out.len() && ex.iter().zip(out.iter()).all(|(a, b)| dwp_item_match(a, b))
+            };
+            let bad = if *exp != "-" && !matches {
                 // differences confined to the key 0 are the known finding C17-1
                 let ex: Vec<&str> = exp.split(';').collect();
                 let only_zero = ex.len() == out.len()
-                    && ids.split(',').zip(ex.iter().zip(out.iter())).all(|(t, (a, b))| *a == b.as_str() || &t[1..] == "0");
+                    && ids.split(',').zip(ex.iter().zip(out.iter())).all(|(t, (a, b))| dwp_item_match(a, b) || &t[1..] == "0");
                 Some(format!("{} standalone={exp}", if only_zero { "find-zero-id" } else { "dwp-unit-differs" }))
             } else {
                 None
@@ -2499,6 +2598,261 @@ fn gen_attr(ctx: &Ctx, emit: &mut dyn FnMut(String)) {
     }
 }
 
+
+// ---------- tool-made tables (thorough tier): gcc/clang objects, dwp / llvm-dwp packages,
+// expectations parsed from llvm-dwarfdump's dumps.  Everything is built under harness/target/.
+
+const REAL_A: &str = "struct point { int x, y; };\nstatic int helper(int v) { return v * 3; }\nint alpha(struct point *p) { return helper(p->x) + p->y; }\nint Beta_Value = 7;\nint GAMMA(int q) { return q ^ Beta_Value; }\n";
+const REAL_B: &str = "typedef struct node { struct node *next; long val; } node_t;\nlong walk(node_t *n) { long s = 0; while (n) { s += n->val; n = n->next; } return s; }\nunsigned char delta_tab[3] = {1, 2, 3};\nlong Walk2(node_t *n) { return walk(n) * 2; }\n";
+
+fn tool(dir: &std::path::Path, cmd: &str, args: &[&str]) -> Option<String> {
+    let out = std::process::Command::new("timeout").arg("30").arg(cmd).args(args).current_dir(dir).output().ok()?;
+    if !out.status.success() {
+        return None;
+    }
+    Some(String::from_utf8_lossy(&out.stdout).into_owned())
+}
+
+fn elf_section(dir: &std::path::Path, file: &str, name: &str) -> Vec<u8> {
+    let tmp = "sec.bin";
+    let _ = std::fs::remove_file(dir.join(tmp));
+    // (`-O binary` drops non-alloc sections)
+    if tool(dir, "objcopy", &["--dump-section", &format!("{name}={tmp}"), file, "objcopy.out"]).is_none() {
+        return vec![];
+    }
+    std::fs::read(dir.join(tmp)).unwrap_or_default()
+}
+
+fn parse_hex_u64(s: &str) -> Option<u64> {
+    u64::from_str_radix(s.trim().trim_start_matches("0x"), 16).ok()
+}
+
+/// `key = 0x…` fields of a llvm-dwarfdump header line
+fn field(line: &str, key: &str) -> Option<u64> {
+    let i = line.find(&format!("{key} = "))? + key.len() + 3;
+    let rest = &line[i..];
+    let end = rest.find(|c: char| c == ',' || c.is_whitespace()).unwrap_or(rest.len());
+    parse_hex_u64(&rest[..end])
+}
+
+fn gen_real(ctx: &Ctx, emit: &mut dyn FnMut(String)) {
+    if ctx.tier != Tier::Thorough {
+        return;
+    }
+    let Ok(exe) = std::env::current_exe() else { return };
+    // …/harness/target/<profile>/gvh -> …/harness/target/c17-real
+    let Some(target) = exe.parent().and_then(|p| p.parent()) else { return };
+    let dir = target.join("c17-real");
+    if std::fs::create_dir_all(&dir).is_err() {
+        return;
+    }
+    let _ = std::fs::write(dir.join("a.c"), REAL_A);
+    let _ = std::fs::write(dir.join("b.c"), REAL_B);
+    // --- linked objects: .debug_aranges, .debug_pubnames/.debug_pubtypes, .debug_names
+    for (cc, ver) in [("gcc", "4"), ("gcc", "5"), ("clang", "4"), ("clang", "5")] {
+        let so = format!("lib_{cc}{ver}.so");
+        let mut args = vec!["-g".to_string(), format!("-gdwarf-{ver}"), "-gpubnames".into(), "-O1".into(), "-shared".into(), "-fPIC".into(), "a.c".into(), "b.c".into(), "-o".into(), so.clone()];
+        if cc == "clang" {
+            args.insert(0, "-gdwarf-aranges".into());
+        }
+        let argr: Vec<&str> = args.iter().map(|x| x.as_str()).collect();
+        if tool(&dir, cc, &argr).is_none() {
+            continue;
+        }
+        // aranges
+        let ar = elf_section(&dir, &so, ".debug_aranges");
+        if !ar.is_empty() {
+            if let Some(dump) = tool(&dir, "llvm-dwarfdump", &["--debug-aranges", &so]) {
+                let mut sets: Vec<String> = Vec::new();
+                let mut off = 0u64;
+                let mut ok = true;
+                let mut cur: Option<(String, Vec<String>)> = None;
+                for l in dump.lines() {
+                    if l.starts_with("Address Range Header:") {
+                        if let Some((h, e)) = cur.take() {
+                            sets.push(format!("{h}={}", join(",", &e)));
+                        }
+                        let (Some(len), Some(ver), Some(cu), Some(asz)) = (field(l, "length"), field(l, "version"), field(l, "cu_offset"), field(l, "addr_size")) else {
+                            ok = false;
+                            break;
+                        };
+                        let fmt = if l.contains("DWARF64") { 64 } else { 32 };
+                        cur = Some((format!("H:{off}:{fmt}:{ver}:{asz}:{len}:{cu}"), Vec::new()));
+                        off += len + if fmt == 64 { 12 } else { 4 };
+                    } else if l.starts_with('[') {
+                        let t: Vec<&str> = l.trim_matches(|c| c == '[' || c == ')').split(", ").collect();
+                        if let (Some(c), [a, b]) = (cur.as_mut(), &t[..]) {
+                            if let (Some(a), Some(b)) = (parse_hex_u64(a), parse_hex_u64(b)) {
+                                c.1.push(format!("{a}-{b}-{}", b - a));
+                            } else {
+                                ok = false;
+                            }
+                        }
+                    }
+                }
+                if let Some((h, e)) = cur.take() {
+                    sets.push(format!("{h}={}", join(",", &e)));
+                }
+                emit(format!("ar le {} {}", hex(&ar), if ok && !sets.is_empty() { join(";", &sets) } else { "-".into() }));
+            }
+        }
+        // pubnames / pubtypes
+        for (which, secname, flag) in [("names", ".debug_pubnames", "--debug-pubnames"), ("types", ".debug_pubtypes", "--debug-pubtypes")] {
+            let pb = elf_section(&dir, &so, secname);
+            if pb.is_empty() {
+                continue;
+            }
+            let mut exp: Vec<String> = Vec::new();
+            let mut ok = false;
+            if let Some(dump) = tool(&dir, "llvm-dwarfdump", &[flag, &so]) {
+                ok = true;
+                let mut unit = 0u64;
+                for l in dump.lines() {
+                    if l.starts_with("length = ") {
+                        match field(l, "unit_offset") {
+                            Some(u) => unit = u,
+                            None => ok = false,
+                        }
+                    } else if l.starts_with("0x") {
+                        if let Some((o, n)) = l.split_once(' ') {
+                            let n = n.trim().trim_matches('"');
+                            match parse_hex_u64(o) {
+                                Some(o) => exp.push(format!("{}:{}:{}", o, hex(n.as_bytes()), unit)),
+                                None => ok = false,
+                            }
+                        }
+                    }
+                }
+            }
+            emit(format!("pub {} le {} {}", which, hex(&pb), if ok && !exp.is_empty() { join(",", &exp) } else { "-".into() }));
+        }
+        // names (clang -gdwarf-5): hashes from the dump are probed; the handler checks that every
+        // name is found through the DJB hash of its string and through its bucket
+        let nm = elf_section(&dir, &so, ".debug_names");
+        if !nm.is_empty() {
+            let st = elf_section(&dir, &so, ".debug_str");
+            let mut hashes: Vec<String> = Vec::new();
+            if let Some(dump) = tool(&dir, "llvm-dwarfdump", &["--debug-names", &so]) {
+                for l in dump.lines() {
+                    if let Some(h) = l.trim().strip_prefix("Hash: ") {
+                        if let Some(h) = parse_hex_u64(h) {
+                            hashes.push(h.to_string());
+                            hashes.push((h ^ 1).to_string());
+                        }
+                    }
+                }
+            }
+            emit(format!("nm le {} {} {} djb", hex(&nm), hex(&st), join(",", &hashes)));
+        }
+    }
+    // --- split DWARF packages
+    for (cc, ver, extra) in [("gcc", "4", "-fdebug-types-section"), ("clang", "4", "-fdebug-types-section"), ("clang", "5", "-fdebug-types-section"), ("gcc", "5", "-O1")] {
+        let mut dwos = Vec::new();
+        for f in ["a", "b"] {
+            let o = format!("{f}_{cc}{ver}.o");
+            if tool(&dir, cc, &["-c", "-g", &format!("-gdwarf-{ver}"), "-gsplit-dwarf", extra, "-O1", &format!("{f}.c"), "-o", &o]).is_some() {
+                dwos.push(format!("{f}_{cc}{ver}.dwo"));
+            }
+        }
+        if dwos.len() != 2 {
+            continue;
+        }
+        for packer in ["dwp", "llvm-dwp"] {
+            // llvm-dwp 14 does not terminate on gcc's DWARF 5 objects; GNU dwp 2.40 writes an empty index for DWARF 5
+            if (packer == "llvm-dwp" && cc == "gcc" && ver == "5") || (packer == "dwp" && ver == "5") {
+                continue;
+            }
+            let pk = format!("{packer}_{cc}{ver}.dwp");
+            if tool(&dir, packer, &["-o", &pk, &dwos[0], &dwos[1]]).is_none() {
+                continue;
+            }
+            let names = [".debug_abbrev.dwo", ".debug_info.dwo", ".debug_line.dwo", ".debug_loc.dwo", ".debug_loclists.dwo", ".debug_macinfo.dwo", ".debug_macro.dwo", ".debug_str_offsets.dwo", ".debug_rnglists.dwo", ".debug_types.dwo"];
+            let secs: Vec<Vec<u8>> = names.iter().map(|n| elf_section(&dir, &pk, n)).collect();
+            let cu = elf_section(&dir, &pk, ".debug_cu_index");
+            let tu = elf_section(&dir, &pk, ".debug_tu_index");
+            let st = elf_section(&dir, &pk, ".debug_str.dwo");
+            if cu.is_empty() {
+                continue;
+            }
+            let Some(dump) = tool(&dir, "llvm-dwarfdump", &["--debug-cu-index", "--debug-tu-index", &pk]) else { continue };
+            let mut which = "c";
+            let mut cols: Vec<usize> = Vec::new();
+            let mut ids: Vec<String> = Vec::new();
+            let mut exp_dump: Vec<String> = Vec::new();
+            let mut exp_alone: Vec<String> = Vec::new();
+            let mut ok = true;
+            let alone: Vec<(Vec<u8>, Vec<u8>)> = dwos.iter().map(|d| (elf_section(&dir, d, ".debug_info.dwo"), elf_section(&dir, d, ".debug_abbrev.dwo"))).collect();
+            for l in dump.lines() {
+                if l.starts_with(".debug_tu_index") {
+                    which = "t";
+                } else if l.starts_with("Index") {
+                    cols = l
+                        .split_whitespace()
+                        .skip(2)
+                        .map(|c| match c {
+                            "ABBREV" => 0,
+                            "INFO" => 1,
+                            "LINE" => 2,
+                            "LOC" => 3,
+                            "LOCLISTS" => 4,
+                            "MACINFO" => 5,
+                            "MACRO" => 6,
+                            "STR_OFFSETS" => 7,
+                            "RNGLISTS" => 8,
+                            "TYPES" => 9,
+                            _ => 99,
+                        })
+                        .collect();
+                } else if let Some(rest) = l.trim_start().split_once(" 0x") {
+                    if !rest.0.chars().all(|c| c.is_ascii_digit()) || rest.0.is_empty() {
+                        continue;
+                    }
+                    let (sig, ranges) = rest.1.split_at(16);
+                    let Some(sig) = parse_hex_u64(sig) else { continue };
+                    let mut sl = vec!["-".to_string(); 10];
+                    let rs: Vec<&str> = ranges.split('[').skip(1).collect();
+                    if rs.len() != cols.len() || cols.contains(&99) {
+                        ok = false;
+                        continue;
+                    }
+                    for (c, r) in cols.iter().zip(rs.iter()) {
+                        let t: Vec<&str> = r.trim().trim_end_matches(')').split(", ").collect();
+                        if let [a, b] = &t[..] {
+                            if let (Some(a), Some(b)) = (parse_hex_u64(a), parse_hex_u64(b)) {
+                                if (b as usize) <= secs[*c].len() && a <= b {
+                                    sl[*c] = hex(&secs[*c][a as usize..b as usize]);
+                                    continue;
+                                }
+                            }
+                        }
+                        ok = false;
+                    }
+                    ids.push(format!("{which}{sig}"));
+                    exp_dump.push(format!("*:{}|*", sl.join(",")));
+                    // the same unit in its standalone object: .debug_info.dwo and .debug_abbrev.dwo are copied verbatim
+                    let info = if which == "c" { &sl[1] } else { "" };
+                    match alone.iter().find(|(i, _)| !i.is_empty() && hex(i) == *info) {
+                        Some((i, ab)) => exp_alone.push(format!("*:{},{},*,*,*,*,*,*,*,*|*", hex(ab), hex(i))),
+                        None => exp_alone.push("*".into()),
+                    }
+                }
+            }
+            if ids.is_empty() {
+                continue;
+            }
+            ids.push("c1".into());
+            exp_dump.push("n".into());
+            exp_alone.push("n".into());
+            let pre = format!("dwp le {} {} {} {} {}", hex(&cu), hex(&tu), secs.iter().map(|b| hex(b)).collect::<Vec<_>>().join(","), hex(&st), ids.join(","));
+            emit(format!("{pre} {}", if ok { exp_dump.join(";") } else { "-".into() }));
+            if exp_alone.iter().any(|x| x.len() > 1) {
+                emit(format!("{pre} {}", exp_alone.join(";")));
+            }
+            emit(format!("ix-parse le {}", hex(&cu)));
+        }
+    }
+}
+
 pub fn gen(ctx: &Ctx, emit: &mut dyn FnMut(String)) {
     gen_index(ctx, emit);
     gen_aranges(ctx, emit);
@@ -2507,6 +2861,7 @@ pub fn gen(ctx: &Ctx, emit: &mut dyn FnMut(String)) {
     gen_dwp(ctx, emit);
     gen_indexed(ctx, emit);
     gen_attr(ctx, emit);
+    gen_real(ctx, emit);
     emit("load-wiring".into());
 }
 
